@@ -41,6 +41,11 @@ int main(int argc, char **argv) {
         fresh("shorthash", n, 0); r = crypto_shorthash(OUT, IN, n, k); emit("shorthash", n, 0, r, OUT, 8);
         fresh("shorthash_x", n, 0); r = crypto_shorthash_siphashx24(OUT, IN, n, k); emit("shorthash_x", n, 0, r, OUT, 16);
         fresh("stream_chacha20", n, 0); r = crypto_stream_chacha20(OUT, n, np, k); emit("stream_chacha20", n, 0, r, OUT, n);
+        if (n >= 192) for (unsigned kk = 1; kk <= 9; kk++) {     /* batches of the vector backends crossing 2^32 in the block counter */
+            fresh("stream_chacha20_xor_ic_wrap", n, kk); r = crypto_stream_chacha20_xor_ic(OUT, IN, n, np, 0x100000000ULL - kk, k); emit("stream_chacha20_xor_ic_wrap", n, kk, r, OUT, n);
+            fresh("stream_salsa20_xor_ic_wrap", n, kk); r = crypto_stream_salsa20_xor_ic(OUT, IN, n, np, 0x100000000ULL - kk, k); emit("stream_salsa20_xor_ic_wrap", n, kk, r, OUT, n);
+            fresh("stream_xchacha20_xor_ic_wrap", n, kk); r = crypto_stream_xchacha20_xor_ic(OUT, IN, n, np, 0x100000000ULL - kk, k); emit("stream_xchacha20_xor_ic_wrap", n, kk, r, OUT, n);
+            if ((n + 63) / 64 <= kk) { fresh("stream_chacha20_ietf_xor_ic_end", n, kk); r = crypto_stream_chacha20_ietf_xor_ic(OUT, IN, n, np, (uint32_t) (0x100000000ULL - kk), k); emit("stream_chacha20_ietf_xor_ic_end", n, kk, r, OUT, n); } }
         fresh("stream_chacha20_xor_ic", n, 0); r = crypto_stream_chacha20_xor_ic(OUT, IN, n, np, 0xfffffffeULL + n, k); emit("stream_chacha20_xor_ic", n, 0, r, OUT, n);
         fresh("stream_chacha20_ietf_xor_ic", n, 0); r = crypto_stream_chacha20_ietf_xor_ic(OUT, IN, n, np, 7, k); emit("stream_chacha20_ietf_xor_ic", n, 0, r, OUT, n);
         fresh("stream_xchacha20_xor", n, 0); r = crypto_stream_xchacha20_xor(OUT, IN, n, np, k); emit("stream_xchacha20_xor", n, 0, r, OUT, n);
